@@ -185,6 +185,17 @@ func (l *loader) loadBus(pBus *acmelibv1.Bus) (*Bus, error) {
 
 	bus.SetBaudrate(int(pBus.Baudrate))
 
+	if len(pBus.CanidBuilderEntityId) > 0 {
+		canIDBuilder, ok := l.refCANIDBuilders[pBus.CanidBuilderEntityId]
+		if !ok {
+			return nil, &EntityIDError{
+				EntityID: EntityID(pBus.CanidBuilderEntityId),
+				Err:      ErrNotFound,
+			}
+		}
+		bus.SetCANIDBuilder(canIDBuilder)
+	}
+
 	for _, pNodeInt := range pBus.NodeInterfaces {
 		nodeInt, err := l.loadNodeInterface(pNodeInt)
 		if err != nil {
